@@ -193,7 +193,6 @@ func traceFeatures(c *mon.Child, tr *gram.Trace) {
 	c.FeatureMax("max:subproduction_depth", int64(tr.MaxSubDepth))
 }
 
-
 // affordable runs the reference evaluator with unlimited lookahead (the most
 // expensive configuration: nothing is ever committed) under a step budget and
 // reports whether the input is cheap enough to hand to the real parser in the
